@@ -120,7 +120,7 @@ CHECKS = {
         E4 + " (R8 header layout)",
         "Packages over ordered selections of 3 modules (one non-ASCII, null-carrying fields) and 3 extensions x 3 formats x compression levels "
         "x bytes/str; header decoder on all 65536 (format, flags) pairs, truncations 0..9 and all 2040 single-byte magic corruptions; size "
-        "ladder of payloads straddling 2^8..2^17 (thorough 2^24) bytes, highly/poorly compressible, and packages of 9..130 (700) modules.",
+        "ladder of payloads straddling 2^8..2^17 (thorough 2^22) bytes, highly/poorly compressible, and packages of 9..130 (700) modules.",
         "Trusted: header layout from hugr-core/src/envelope/header.rs; zstd frame magic. MODULE formats need the native module: reported skipped.",
         "DESIGN.md section 4 (C09)",
     ),
